@@ -19,7 +19,15 @@ from tornado.httputil import HTTPHeaders, HTTPInputError
 # pool: spellings of one field name differing only in case, and two other names
 NAMES = ["a-b", "A-B", "c", "a-B", "C", "A-b"]
 NK = 7    # op kinds
-NPS = 6   # pre-states (all built through the real public API)
+NPS = 8   # pre-states (all built through the real public API)
+# Value pool, chosen by symbolic index.  CrossHair cannot keep rejected values symbolic: tornado formats
+# them with "%r" into the exception text, which realises the string (one path per concrete value, never
+# exhausted).  The pool holds a representative of every character class of the field-value grammar
+# (Engine B proves for ALL strings that the validator == the RFC grammar, i.e. that the classes are right).
+_ALPH = ["x", ",", " ", "\t", "\n", "\r", "\0", "\x7f", "\x80", "\xff", "\u0100", ":", "\x1f", "\x0b"]
+VALUES = ["", "x", "x y", " ", "\n", "\x80", "\u0100", "\0", " x", "x\t", "x\ty", "a,b", "\r\n", "x\r\n",
+          "\t", "\r", "\x7f", "\xff", ":", ",", "\x1f", "\x0b", " \n"] + \
+    [a + b for a in _ALPH for b in _ALPH] + ["x" + a + "y" for a in _ALPH]
 
 
 def valid_value(v: str) -> bool:
@@ -80,9 +88,22 @@ def chop_eol(line: str) -> str:
 
 def build_prestate(ps: int):
     h, m = HTTPHeaders(), Model()
+    if ps == 6:
+        h["c"] = "r"
+        m.set("c", "r")
+        h.add("C", "s")
+        m.add("C", "s")
+        return h, m
     if ps >= 1:
         h.add("a-b", "p")
         m.add("a-b", "p")
+    if ps == 7:                    # delete and re-insert: the name moves behind "c"
+        h.add("c", "r")
+        m.add("c", "r")
+        del h["A-b"]
+        del m.d["a-b"]
+        h.add("A-B", "t")
+        m.add("A-B", "t")
     if ps in (2, 3):
         h.add("A-B", "q")          # second value under another spelling: combined cache dropped
         m.add("A-B", "q")
@@ -94,51 +115,66 @@ def build_prestate(ps: int):
     if ps == 5:
         h.parse_line(" q")         # continuation line
         m.d["a-b"][-1] += " q"
+        m.last = "a-b"
     return h, m
 
 
 def observe(h, m, pool):
-    """non-mutating reads of the real map against the model"""
-    assert len(h) == len(m.d), "len() differs from the number of distinct names"
-    assert [k.lower() for k in h] == list(m.d), "iteration order is not first-insertion order"
+    """non-mutating reads of the real map against the model; returns an error text or None
+    (no `assert` here: CrossHair would treat this helper as a contract and copy its arguments)"""
+    if len(h) != len(m.d):
+        return "len() differs from the number of distinct names"
+    if [k.lower() for k in h] != list(m.d):
+        return "iteration order is not first-insertion order"
     want_all = [(k, v) for k, vs in m.d.items() for v in vs]
-    assert [(k.lower(), v) for k, v in h.get_all()] == want_all, "get_all() differs from the model"
+    if [(k.lower(), v) for k, v in h.get_all()] != want_all:
+        return "get_all() differs from the model"
     for name in pool:
         k = name.lower()
-        assert (name in h) == (k in m.d), "membership of %r differs" % name
-        assert list(h.get_list(name)) == m.d.get(k, []), "get_list(%r) differs" % name
+        if (name in h) != (k in m.d):
+            return "membership of %r differs" % name
+        if list(h.get_list(name)) != m.d.get(k, []):
+            return "get_list(%r) differs" % name
+    return None
 
 
 def observe_joined(h, m, pool):
     for name in pool:
         k = name.lower()
         if k in m.d:
-            assert h[name] == ",".join(m.d[k]), "h[%r] is not the comma-joined value list" % name
-            assert h.get(name) == ",".join(m.d[k])
+            if h[name] != ",".join(m.d[k]) or h.get(name) != ",".join(m.d[k]):
+                return "h[%r] is not the comma-joined value list" % name
         else:
             try:
                 h[name]
-                ok = False
+                return "h[%r] must raise KeyError for an absent name" % name
             except KeyError:
-                ok = True
-            assert ok, "h[%r] must raise KeyError for an absent name" % name
-            assert h.get(name) is None
+                pass
+            if h.get(name) is not None:
+                return "get(%r) must be None for an absent name" % name
+    return None
 
 
-def pre_ops(ps: int, fin: bool, ops: List[Tuple[int, int, str]]) -> bool:
+def pre_ops(ps: int, fin: bool, ops: List[Tuple[int, int, int]]) -> bool:
     if not (0 <= ps < NPS and len(ops) <= P.N):
         return False
-    for k, n, v in ops:
-        if not (0 <= k < NK and 0 <= n < P.NAMES and len(v) <= P.L):
+    if ps not in P.PS:
+        return False
+    for k, n, vi in ops:
+        if not (0 <= k < NK and 0 <= n < P.NAMES and 0 <= vi < P.NV):
             return False
-    return in_shard(ps + NPS * (ops[0][0] if len(ops) > 0 else 0))
+        if k in (2, 3) and vi != 0:
+            return False                   # delete / read carry no value
+    k0 = ops[0][0] if len(ops) > 0 else 0
+    k1 = ops[1][0] if len(ops) > 1 else 0
+    return in_shard(ps + NPS * k0 if P.SK == 0 else k0 + NK * k1)
 
 
 @harness(
     pre=pre_ops,
-    quick=dict(N=int(__import__("os").environ.get("RXN","2")), L=int(__import__("os").environ.get("RXL","1")), NAMES=3, timeout=150, reach_timeout=90),
-    thorough=dict(N=3, L=2, NAMES=6, timeout=1400, reach_timeout=120),
-    nshards=dict(quick=14, thorough=42),
+    quick=dict(N=1, NV=16, NAMES=3, PS=tuple(range(NPS)), SK=0, timeout=200, reach_timeout=90),
+    thorough=dict(N=1, NV=len(VALUES), NAMES=3, PS=tuple(range(NPS)), SK=0, timeout=1200, reach_timeout=120),
+    nshards=dict(quick=8, thorough=56),
     reach=["deleted_multi", "continuation", "rejected_value", "roundtrip", "copy_independent"],
     units=["httputil.HTTPHeaders.add", "httputil.HTTPHeaders.__setitem__", "httputil.HTTPHeaders.__delitem__",
            "httputil.HTTPHeaders.__getitem__", "httputil.HTTPHeaders.__contains__",
@@ -146,19 +182,23 @@ def pre_ops(ps: int, fin: bool, ops: List[Tuple[int, int, str]]) -> bool:
            "httputil.HTTPHeaders.__len__", "httputil.HTTPHeaders.copy", "httputil.HTTPHeaders.parse_line",
            "httputil.HTTPHeaders.parse", "httputil.HTTPHeaders.__str__", "httputil._normalize_header"],
     stubs=["field names come from a concrete pool (chosen by symbolic index) so the lru_cache'd "
-           "_normalize_header sees concrete keys; values and line tails are symbolic str",
+           "_normalize_header sees concrete keys",
+           "values / line tails are chosen by symbolic index from a pool holding a representative of every "
+           "character class of the field-value grammar (\"%r\" formatting of rejected values realises "
+           "symbolic strings); extra x_grammar proves the validator == RFC grammar for all strings",
            "pre-states 0..5 are built through the public API (add / parse_line continuation / "
            "__getitem__) before the symbolic operations"],
-    outside=["histories longer than N symbolic operations after the pre-state", "values longer than L "
-             "code points", "names outside the pool", "continuation line after the last added name was "
+    outside=["histories longer than N symbolic operations after the pre-state", "values outside the pool (quick: 16 values; thorough: all 1-2 "
+             "character strings over 14 class representatives + 3-character sandwiches)", "names outside the pool", "continuation line after the last added name was "
              "deleted or on a copy (no defined multimap meaning)", "bytes values",
              "parse_line arguments with an LF that is not the final character"],
 )
-def h_ops(ps: int, fin: bool, ops: List[Tuple[int, int, str]]):
+def h_ops(ps: int, fin: bool, ops: List[Tuple[int, int, int]]):
     pool = NAMES[:P.NAMES]
     h, m = build_prestate(ps)
     copies = []
-    for k, n, v in ops:
+    for k, n, vi in ops:
+        v = VALUES[vi]
         name = pool[n]
         key = name.lower()
         if k == 0:                                   # add
@@ -244,17 +284,20 @@ def h_ops(ps: int, fin: bool, ops: List[Tuple[int, int, str]]):
             assert ok == mc.add(name, v)
             copies.append((c, mc))
     # ---- end of history
-    observe(h, m, pool)
+    err = observe(h, m, pool)
+    assert err is None, err
     for c, mc in copies:
         reached("copy_independent")
-        observe(c, mc, pool)                         # later mutations of h did not leak into the copy
+        err = observe(c, mc, pool)                   # later mutations of h did not leak into the copy
+        assert err is None, "copy: %s" % err
     if m.all_valid:
         reached("roundtrip")
         back = HTTPHeaders.parse(str(h))
         assert [(k2.lower(), v2) for k2, v2 in back.get_all()] == \
             [(k2.lower(), v2) for k2, v2 in h.get_all()], "parse(str(h)) != h"
     if fin:
-        observe_joined(h, m, pool)
+        err = observe_joined(h, m, pool)
+        assert err is None, err
     else:
         for name in pool:                            # every name reported present can be deleted
             if name in h:
@@ -266,6 +309,27 @@ def h_ops(ps: int, fin: bool, ops: List[Tuple[int, int, str]]):
                 assert raised is None, "a name reported present could not be deleted (KeyError)"
                 assert name not in h
         assert len(h) == 0
+
+
+def _clone(fn, name):
+    import types
+    g = types.FunctionType(fn.__code__, fn.__globals__, name, fn.__defaults__, fn.__closure__)
+    g.__annotations__ = dict(fn.__annotations__)
+    g.__module__ = fn.__module__
+    g.__qualname__ = name
+    g.__doc__ = "same body as h_ops: two symbolic operations over a narrower value pool"
+    return g
+
+
+_H = h_ops.harness
+h_ops2 = harness(
+    pre=pre_ops,
+    quick=dict(N=2, NV=2, NAMES=2, PS=(0, 3), SK=1, timeout=150, reach_timeout=90),
+    thorough=dict(N=2, NV=6, NAMES=3, PS=tuple(range(NPS)), SK=1, timeout=900, reach_timeout=120),
+    nshards=dict(quick=7, thorough=49),
+    reach=["copy_independent", "deleted_multi"],
+    units=_H.units, stubs=_H.stubs, outside=_H.outside,
+)(_clone(h_ops, "h_ops2"))
 
 
 # ------------------------------------------------------------------------------ Engine B extras
